@@ -52,7 +52,8 @@ REQUIRED = {"all": ["runs", "completed_runs", "steps", "accepted_steps", "reject
                     "partial_range_runs", "hostile_tapes", "start_outside_range_runs", "flat_boundary_exact_hits",
                     "second_runs_on_same_machine", "g_beyond_709_steps", "runs_beyond_30_iterations",
                     "runs_converged_before_the_first_step", "ranges_not_aligned_to_the_partition", "proposals_identical_to_the_current_sequence",
-                    "runs_under_a_jumping_wall_clock", "other_machine_set_up_on_the_same_directory"]}
+                    "runs_under_a_jumping_wall_clock", "other_machine_set_up_on_the_same_directory",
+                    "runs_on_chains_longer_than_30", "runs_with_flatness_criterion_one", "machines_from_a_reinitialised_front_end"]}
 NRUNS = {"quick": 160, "thorough": 1200}
 STEP_BUDGET = {"quick": 3000, "thorough": 30000}
 WATCHDOG = {"quick": 1200, "thorough": 6 * 3600}
@@ -167,6 +168,20 @@ def cases(tier, seed):
                 yield {"s": seq, "M": M_, "a": a_, "b": a_ + nb, "raw": [nb, lo, hi], "flatchk": rng.choice([7, 50, 200]),
                        "flatcrit": rng.choice([0.0, 0.2]), "conv": "e0.6", "frozen": [], "hostile": False, "o": rng.randrange(1 << 30), "twice": False}
                 continue
+        if i % 16 == 1 and i % 32 == 1:
+            # chains of more than 30 residues (the sampler shortens them in its banner; the logs must not)
+            n2 = rng.randint(31, 40)
+            pat2 = [1] * rng.randint(4, 7) + [-1] * rng.randint(4, 7)
+            pat2 = pat2 + [0] * (n2 - len(pat2))
+            rng.shuffle(pat2)
+            yield {"s": gen.spell(rng, pat2), "M": rng.choice([2, 4]), "a": 0, "b": 0, "flatchk": rng.choice([20, 50]), "flatcrit": 0.0,
+                   "conv": "e0.3", "frozen": [], "hostile": False, "o": rng.randrange(1 << 30), "twice": False, "fullrange": True, "long": True}
+            continue
+        if i % 16 == 15:
+            # the flatness criterion at its upper end: every bin must hold at least the mean, i.e. all bins equal
+            yield {"s": seq, "M": 2, "a": 0, "b": 2, "flatchk": rng.choice([2, 4, 10]), "flatcrit": rng.choice([1, 1.0]), "conv": "e0.6",
+                   "frozen": [], "hostile": False, "o": rng.randrange(1 << 30), "twice": False, "crit_one": True}
+            continue
         if i % 16 == 11:
             # strict criterion checked every step or two: hundreds of consecutive failing checks within one iteration
             yield {"s": seq, "M": rng.choice([4, 5]), "a": 0, "b": 0, "flatchk": rng.choice([1, 2]), "flatcrit": 0.9, "conv": "e0.6",
@@ -562,6 +577,10 @@ def judge(case, rep, S):
     outdir = tempfile.mkdtemp(dir=_cfg["tmp"])
     Mb, a, b = case["M"], case["a"], case["b"]
     rep.cnt("runs")
+    if case.get("long"):
+        rep.cnt("runs_on_chains_longer_than_30")
+    if case.get("crit_one"):
+        rep.cnt("runs_with_flatness_criterion_one")
     if (a, b) != (0, Mb):
         rep.cnt("partial_range_runs")
     result = None
@@ -582,8 +601,17 @@ def judge(case, rep, S):
                 rep.cnt("ranges_not_aligned_to_the_partition")
             else:
                 nb_, lo_, hi_ = b - a, a / Mb, b / Mb
-            machine = wl.WangLandauMachine(case["s"], outdir, set(case["frozen"]), nb_, lo_, hi_,
-                                           case["flatchk"], case["flatcrit"], CONV[case["conv"]])
+            if case["o"] % 4 == 2:
+                # through the SequencePermutants front end, which had been initialised with other settings before
+                pobj = S["SPerm"](case["s"])
+                other_nb = 3 if nb_ != 3 else 5
+                pobj.initializeWangLandauParameters(outdir, set(), other_nb, 0.0, 1.0, 17, 0.4, 1.3)
+                pobj.initializeWangLandauParameters(outdir, set(case["frozen"]), nb_, lo_, hi_, case["flatchk"], case["flatcrit"], CONV[case["conv"]])
+                machine = pobj.WLM
+                rep.cnt("machines_from_a_reinitialised_front_end")
+            else:
+                machine = wl.WangLandauMachine(case["s"], outdir, set(case["frozen"]), nb_, lo_, hi_,
+                                               case["flatchk"], case["flatcrit"], CONV[case["conv"]])
             if case["o"] % 5 == 1:
                 # another machine is set up on the same output directory (other binning) before this one runs: what this run
                 # writes and returns is still its own
